@@ -5,6 +5,7 @@ import Driver.Wire
 import Driver.Multi
 import Driver.Rec
 import Driver.Up
+import Driver.Down
 /- Line-protocol driver: `driver <topic>` reads one op per line on stdin, prints one line per op. -/
 open Driver
 
@@ -31,4 +32,5 @@ def main (args : List String) : IO UInt32 := do
   | ["multi"] => loop stdin stdout Driver.Multi.step {}; return 0
   | ["rec"] => loop stdin stdout Driver.Rec.step {}; return 0
   | ["up"] => loop stdin stdout Driver.Up.step {}; return 0
+  | ["down"] => loop stdin stdout Driver.Down.step {}; return 0
   | _ => IO.eprintln "usage: driver <topic>"; return 2
